@@ -313,6 +313,9 @@ func (w *World) resolveVia(via, id string, field *ggql.Field, args map[string]in
 	if v.K == "err" {
 		return nil, fmt.Errorf("%s", v.S)
 	}
+	if v.K == "errval" { // a resolver returning a value together with an error
+		return v.S, fmt.Errorf("failed after producing %s", v.S)
+	}
 	if v.K == "errs" { // a resolver returning a group of errors
 		var es ggql.Errors
 		for i := int64(0); i < v.I; i++ {
